@@ -156,7 +156,52 @@ def _identities(ctx: Ctx):
         ctx.count("identities", "checked", len(pairs) + 2)
 
 
+def _parser_history(ctx: Ctx):
+    """one parser object, re-configured between uses (include_intercept toggled, feature flags changed), gives for every string what a fresh parser
+    with the current configuration gives -- also for a string it has parsed before under another configuration"""
+    from formulaic.parser import DefaultFormulaParser
+    from formulaic.errors import FormulaParsingError
+    rng = ctx.fork("parser-history")
+    strings = ["y ~ a + b", "a | b", "a + b", "y ~ a | b", "a*b - a", "0 + a", "~ a", "a:b + 1", "(a + b)**2 | c", "y ~ 0 + a"]
+    allf = ["twosided", "multipart"]
+
+    def outcome(p, s):
+        try:
+            return "ok", G.struct_to_py(p.get_terms(s))
+        except FormulaParsingError:
+            return "reject", None
+        except Exception as e:
+            return "internal:" + type(e).__name__, None
+    for i in range(ctx.n(80, 1000)):
+        ic = rng.random() < 0.5
+        flags = {f for f in allf if rng.random() < 0.8}
+        p = DefaultFormulaParser(include_intercept=ic, feature_flags=set(flags))
+        hist = [f"new(include_intercept={ic}, flags={sorted(flags)})"]
+        pool = rng.sample(strings, 3)
+        for step in range(rng.randint(3, 7)):
+            r = rng.random()
+            if r < 0.3:
+                ic = not ic
+                p.include_intercept = ic
+                hist.append(f"include_intercept={ic}")
+            elif r < 0.45:
+                flags = {f for f in allf if rng.random() < 0.7}
+                p.set_feature_flags(set(flags))
+                hist.append(f"set_feature_flags({sorted(flags)})")
+            s = rng.choice(pool)
+            hist.append(f"parse {s!r}")
+            ctx.oracle_runs += 1
+            got = outcome(p, s)
+            want = outcome(DefaultFormulaParser(include_intercept=ic, feature_flags=set(flags)), s)
+            if got != want:
+                ctx.fail(f"a parser with the history {hist} reads {s!r} as {got}; a fresh parser with include_intercept={ic}, flags={sorted(flags)} gives {want}",
+                         {"kind": "parser-history", "history": hist, "formula": s})
+                break
+        ctx.count("parser-history", "histories")
+
+
 def run(ctx: Ctx):
+    _parser_history(ctx)
     _grammar(ctx)
     _identities(ctx)
 
